@@ -90,9 +90,11 @@ def a_completion_completes(v):
 
 
 def a_start_starts(v):
-    """a starting report on a fresh or re-staged record makes it active/pending"""
-    return IMPLIES(AND(IN(v["cur"], [st.UNSET, st.RETRYING]), EQ(v["ev"], st.RUNNING), v["is_action"]),
-                   EQ(v["new"], st.RUNNING))
+    """a starting report (requested / scheduled / delayed / running / pending) on a fresh record, or on
+    a record re-staged for a retry, is taken as reported: an offered attempt that the provider
+    acknowledges is in flight from then on, whether it is the first attempt or a retried one"""
+    return IMPLIES(AND(IN(v["cur"], [st.UNSET, st.RETRYING]), IN(v["ev"], st.STARTING_STATUSES), v["is_action"]),
+                   EQ(v["new"], v["ev"]))
 
 
 def a_closed(v):
@@ -114,7 +116,7 @@ ACTION_OBLIGATIONS = {
     "C03.tsm.completion_completes": (["C03"], a_completion_completes,
         "a completion report of an in-flight plain task completes it"),
     "C01.tsm.start_starts": (["C01", "C13"], a_start_starts,
-        "running report on a fresh / retrying record makes it running"),
+        "a starting report (requested, scheduled, delayed, running, pending) on a fresh record or on a record waiting to be retried is taken as reported"),
     "C15.tsm.closed": (["C15"], a_closed,
         "the task table is closed: every produced status has a row"),
 }
